@@ -113,6 +113,7 @@ pub trait MacroApi {
         #[path(name = "c")] c: i32,
         #[query(name = "q1")] q: &Echo,
         #[header(name = "X-H1")] h: &Echo,
+        #[query(name = "ls", encoder = DisplaySeqEncoder)] ls: &[String],
     ) -> Result<String, Error>;
 
     /// a list-valued path parameter (server side: regex segment, one element per raw segment)
@@ -188,6 +189,7 @@ pub trait AsyncMacroApi {
         #[path(name = "c")] c: i32,
         #[query(name = "q1")] q: &Echo,
         #[header(name = "X-H1")] h: &Echo,
+        #[query(name = "ls", encoder = DisplaySeqEncoder)] ls: &[String],
     ) -> Result<String, Error>;
 
     /// a list-valued path parameter (server side: regex segment, one element per raw segment)
@@ -264,6 +266,7 @@ macro_rules! macro_endpoints {
                 #[path(name = "c", log_as = "sea")] c_renamed: i32,
                 #[query(name = "q1", log_as = "pq", safe)] q: Echo,
                 #[header(name = "X-H1", log_as = "hh")] h: Echo,
+                #[query(name = "ls", decoder = FromStrSeqDecoder<_>)] ls: Vec<String>,
             ) -> Result<String, Error>;
 
             #[endpoint(method = GET, path = "/m/ids/{ids:.*}", produces = StdResponseSerializer)]
@@ -314,8 +317,8 @@ macro_rules! macro_handler {
                     "camelCase": camel_case, "self": self_, "snake_arg": snake_arg, "match": match_}}));
                 conjure_serde::json::client_from_str(&self.ret.to_string()).map_err(Error::internal_safe)
             }
-            $($asyncness)? fn attrs(&self, a: Echo, b: Echo, c: i32, q: Echo, h: Echo) -> Result<String, Error> {
-                self.rec.lock().unwrap().calls.push(json!({"endpoint": "attrs", "args": {"b": a.0, "bee": b.0, "sea": c, "pq": q.0, "hh": h.0}}));
+            $($asyncness)? fn attrs(&self, a: Echo, b: Echo, c: i32, q: Echo, h: Echo, ls: Vec<String>) -> Result<String, Error> {
+                self.rec.lock().unwrap().calls.push(json!({"endpoint": "attrs", "args": {"b": a.0, "bee": b.0, "sea": c, "pq": q.0, "hh": h.0, "ls": ls}}));
                 conjure_serde::json::client_from_str(&self.ret.to_string()).map_err(Error::internal_safe)
             }
             $($asyncness)? fn ids_path(&self, ids: Vec<i32>) -> Result<String, Error> {
@@ -368,7 +371,7 @@ macro_rules! mac_calls {
                 "idsPath" => $w!(c.ids_path(arg(args, "ids")?)).map(|v| json!(v)),
                 "attrs" => {
                     let e = |n: &str| -> Result<Echo, String> { Ok(Echo(arg::<String>(args, n)?)) };
-                    $w!(c.attrs(&e("b")?, &e("bee")?, arg(args, "sea")?, &e("pq")?, &e("hh")?)).map(|v| json!(v))
+                    $w!(c.attrs(&e("b")?, &e("bee")?, arg(args, "sea")?, &e("pq")?, &e("hh")?, &arg::<Vec<String>>(args, "ls")?)).map(|v| json!(v))
                 }
                 other => return Err(format!("endpoint {other} has no macro twin")),
             })
